@@ -120,10 +120,13 @@ def r14_1(ctx):
     (ctx.ok(construct, f.loc(loop)) if ok and d3 else ctx.bad(construct, "reply no longer built from the four diffs", f.loc(loop)))
     df = repo.func(f"{KS}:diff")
     construct = "diff/items of `after` whose value differs from `before` (absent counts as different)"
-    comp = [n for n in ast.walk(df.node) if isinstance(n, ast.GeneratorExp)]
+    comp = [n for n in ast.walk(df.node) if isinstance(n, (ast.GeneratorExp, ast.DictComp))]
     ok = False
     if comp:
         c = comp[0]
+        if isinstance(c, ast.DictComp):
+            # `{k: v for ..}` is `dict((k, v) for ..)`
+            c = ast.GeneratorExp(elt=ast.Tuple(elts=[c.key, c.value], ctx=ast.Load()), generators=c.generators)
         g = c.generators[0]
         cond = ast.unparse(g.ifs[0]) if len(g.ifs) == 1 else ""
         kv = [t.id for t in g.target.elts] if isinstance(g.target, ast.Tuple) and all(isinstance(t, ast.Name) for t in g.target.elts) else ["?", "?"]
